@@ -4,7 +4,7 @@ from ..core import hx, lst, WILD
 from ..ref import P, L, to32, le
 
 REQUIRED = ['n=0', 'n=1', 'straus', 'pippenger', 'corrupt:none', 'corrupt:msg', 'corrupt:key', 'corrupt:R', 'corrupt:S',
-            'corrupt:S+l', 'corrupt:R-offcurve', 'shuffled', 'duplicated', 'len-mismatch', 'pos:first', 'pos:last', 'many', 'cancelling']
+            'corrupt:S+l', 'corrupt:R-offcurve', 'shuffled', 'duplicated', 'len-mismatch', 'pos:first', 'pos:last', 'many', 'cancelling', 'dup-corrupted']
 
 
 def okerr(x):
@@ -114,6 +114,15 @@ def gen(ctx, sizes, reps):
                 for k in (-1, -2):
                     b[k].ok = ref.ed_verify_predicate(b[k].key, b[k].msg, b[k].sig)
                 emit(ctx, b, ncl + ['cancelling', 'many'])
+                # a valid entry together with a copy of it whose S (or message / key) is corrupted, in both orders:
+                # entries that share (R, A, M) or parts of it must still be judged individually
+                e0 = base[i]
+                for kind in ('S', 'msg', 'key'):
+                    bad = corrupt(rng, e0, kind, keys)
+                    others = [x for k_, x in enumerate(base) if k_ != i]
+                    emit(ctx, others + [e0, bad], ncl + ['dup-corrupted', 'corrupt:' + kind])
+                    emit(ctx, others + [bad, e0], ncl + ['dup-corrupted', 'corrupt:' + kind])
+                    emit(ctx, [e0, bad] + others, ncl + ['dup-corrupted', 'corrupt:' + kind])
             if n >= 3:
                 b = [corrupt(rng, e, rng.choice(['msg', 'key', 'R', 'S']), keys) if rng.random() < 0.5 else e for e in base]
                 emit(ctx, b, ncl + ['many'])
